@@ -2,6 +2,7 @@ import OpacusLean.Lemmas.PrvEps
 import OpacusLean.Lemmas.PrvRoll
 import OpacusLean.Lemmas.PrvTree
 import OpacusLean.Lemmas.PrvDomain
+import OpacusLean.Lemmas.PrvCentred
 /-! # C07 — the PRV accountant's discrete algebra
 
 What is proved here is the index / shift / inversion algebra of
@@ -189,6 +190,28 @@ example : (match composeHeterogeneous
     = ([0, 2, 4, 4], 1, 7, 4, 4) := by decide
 
 
+/-- **compose_heterogeneous_exact** (the whole composition, any number of groups, any tree shape).
+Read a pmf of even size `N` as the law of an offset `j - c` from the centre bin `c = N/2 - 1`.
+If pmf `i` lives within `rad i` bins of the centre and `Σ n_i · rad i ≤ c` (so that nothing can be
+aliased by the FFT or cut by `mode='same'`), then `compose_heterogeneous` returns **exactly** the law of
+the sum of all `M = Σ n_i` offsets on the same grid: with `Q = Π_i (Σ_j pmf_i[j] Xʲ)^{n_i}`,
+`Q = X^{(M-1)c} · Σ_j out[j] Xʲ`, i.e. `out[j] = Q[j + (M-1)c]` and `Q` has no other mass. -/
+theorem compose_heterogeneous_exact (N : ℕ) (hN : N % 2 = 0) (hN2 : 2 ≤ N) (rad : DPrv R → ℕ)
+    (ds : List (DPrv R)) (ns : List ℕ) (res : DPrv R)
+    (h : composeHeterogeneous ds ns = .ok res)
+    (hsz : ∀ d ∈ ds, d.pmf.size = N)
+    (hsupp : ∀ d ∈ ds, ∀ j, d.pmf.getD j 0 ≠ 0 → N / 2 - 1 ≤ j + rad d ∧ j ≤ N / 2 - 1 + rad d)
+    (hn : ∀ n ∈ ns, 1 ≤ n) (hfit : weightedRad rad ds ns ≤ N / 2 - 1) :
+    res.pmf.size = N ∧
+    polyProd ds ns = X ^ ((totalCount ds ns - 1) * (N / 2 - 1)) * toPoly res.pmf ∧
+    ∀ j, res.pmf.getD j 0 = (polyProd ds ns).coeff (j + (totalCount ds ns - 1) * (N / 2 - 1)) := by
+  obtain ⟨c, hc⟩ : ∃ c, N / 2 - 1 = c := ⟨_, rfl⟩
+  have hNc : N = 2 * c + 2 := by omega
+  rw [hc] at hfit ⊢
+  have hrep := composeHeterogeneous_rep (c := c) rad ds ns res h (fun d hd => by rw [hsz d hd, hNc])
+    (fun d hd j hj => by have := hsupp d hd j hj; rw [hc] at this; exact this) hn hfit
+  exact ⟨by rw [hrep.size, hNc], hrep.shift, fun j => hrep.getD j⟩
+
 end compose
 
 section massSec
@@ -315,6 +338,24 @@ theorem find_epsilon_inverts_hockey_stick (d : DPrv ℝ) (ldEps δ δe ee lo est
   · rw [sub_add_cancel]; exact sl.2.2.2.2
 
 /-! non-vacuity -/
+def exD1 : DPrv ℤ := ⟨#[0, 0, 0, 1, 1, 0, 0, 0], ⟨-6, 8, 8, 1⟩⟩
+def exD2 : DPrv ℤ := ⟨#[0, 0, 2, 0, 0, 0, 0, 0], ⟨-8, 6, 8, -1⟩⟩
+
+/-- the hypotheses of `compose_heterogeneous_exact` are satisfiable (N = 8, c = 3, radii 1, counts 2 and 1) -/
+example : (∀ d ∈ [exD1, exD2], d.pmf.size = 8) ∧
+    (∀ d ∈ [exD1, exD2], ∀ j, d.pmf.getD j 0 ≠ 0 → 8 / 2 - 1 ≤ j + (fun _ => 1) d ∧ j ≤ 8 / 2 - 1 + (fun _ => 1) d) ∧
+    weightedRad (fun _ => 1) [exD1, exD2] [2, 1] ≤ 8 / 2 - 1 ∧
+    (match composeHeterogeneous [exD1, exD2] [2, 1] with
+      | .ok o => o.pmf.toList | .error _ => []) = [0, 0, 2, 4, 2, 0, 0, 0] := by
+  refine ⟨by decide, ?_, by decide, by decide⟩
+  intro d hd j hj
+  simp only [List.mem_cons, List.mem_nil_iff, or_false] at hd
+  by_cases hlt : j < 8
+  · have hj8 : j = 0 ∨ j = 1 ∨ j = 2 ∨ j = 3 ∨ j = 4 ∨ j = 5 ∨ j = 6 ∨ j = 7 := by omega
+    rcases hd with rfl | rfl <;> rcases hj8 with rfl | rfl | rfl | rfl | rfl | rfl | rfl | rfl <;>
+      simp_all [exD1, exD2]
+  · rcases hd with rfl | rfl <;> exact absurd (getD_eq_zero _ _ (by simp [exD1, exD2]; omega)) hj
+
 -- compute_epsilon non-vacuity over ℝ: grid {0, log 2}, pmf (1/2, 1/2), δ = 1/10
 theorem eps_witness : ∃ lo est hi : ℝ,
     computeEpsilon (⟨#[1/2, 1/2], ⟨0, Real.log 2, 2, 0⟩⟩ : DPrv ℝ) 0 (1/10) 0 0 = .triple lo est hi := by
